@@ -559,6 +559,23 @@ def __init__(a: uint256):
 @external
 def sum() -> uint256:
     return A + self.s
+# enough runtime code that it is at least as long as the constructor's memory (mem_deploy_start == 0)
+@external
+def pad(a: uint256[6], b: int256[6], c: String[40]) -> uint256:
+    t: uint256 = len(c)
+    for i: uint256 in range(6):
+        t += a[i] * 3 + convert(abs(b[i]), uint256) // 7
+    return t % 1000003 + A
+@external
+def pad2(a: DynArray[uint256, 8], k: uint256) -> DynArray[uint256, 8]:
+    r: DynArray[uint256, 8] = a
+    if k < len(r):
+        r[k] = A
+    if len(r) < 8:
+        r.append(k)
+    else:
+        r.pop()
+    return r
 """
 
 # source-level values the deployed contract must read back when the constructor is run with the default-valued
